@@ -353,6 +353,15 @@ def gate_sequences(cfgname, rng, quick):
         for perm in itertools.permutations([capsym, "NICK gate1", "USER plain 0 * :P"]):
             for end in ([], ["CAP END"], ["JOIN #o", "CAP END"]):
                 seqs.append((["PASS " + spw] if spw else []) + list(perm) + end)
+    # two capability sub-commands in a row (does the second one close what the first one opened?)
+    caps2 = ("CAP LS 302", "CAP REQ :multi-prefix", "CAP REQ :bogus", "CAP LIST", "CAP END")
+    for c1 in caps2[:3]:
+        for c2 in caps2:
+            base = (["PASS " + spw] if spw else [])
+            seqs.append(base + [c1, c2, "NICK gate1", "USER plain 0 * :P"])
+            seqs.append(base + [c1, "NICK gate1", c2, "USER plain 0 * :P"])
+            seqs.append(base + ["NICK gate1", c1, "USER plain 0 * :P", c2])
+            seqs.append(base + [c1, "NICK gate1", "USER plain 0 * :P", c2, "JOIN #o", "CAP END"])
     # password cores, exhaustively: "for every order and repetition of PASS" - two PASS commands (right/wrong in both
     # orders, twice the same) at every position before the command that completes the registration; the last one counts
     users = CONFIGS[cfgname][1]
